@@ -18,14 +18,20 @@ def between(k):
 def build(rng, facts, name):
     spec = rng.choice(sorted(facts)); b = Builder(name)
     kp, kn = rng.choice(STORES), rng.choice(STORES); exact = rng.random() < 0.3
-    b.knew("k", spec, kp, kn, exact)
     small = rng.random() < 0.45           # total weight below one
     n = rng.choice([1, 1, 2, 3, 6, 15, 40])
     vals = rand_values(rng, n, -3, 3, signs=rng.choice([(1,), (-1,), (1, -1), (1, -1)]))
-    for v in vals:
-        w = wgt(rng, small)
-        if small and sum(c for _, c in b.vals["k"]) + w >= 1: w = Fraction(1, 4096)
-        b.kadd("k", v, float(w))
+    # one sketch in four is a copy that keeps absorbing: the first part of the data goes to the original, the copy takes the rest
+    ncopy = rng.randint(0, n) if rng.random() < 0.25 else None
+    if ncopy is None: b.knew("k", spec, kp, kn, exact)
+    else: b.knew("k0", spec, kp, kn, exact)
+    for i, v in enumerate(vals):
+        if ncopy is not None and i == ncopy: b.kcopy("k", "k0")
+        cur = "k0" if ncopy is not None and i < ncopy else "k"
+        w = wgt(rng, small) if rng.random() < 0.85 else Fraction(1)          # unit entries among the weighted ones
+        if small and sum(c for _, c in b.vals[cur]) + w >= 1: w = Fraction(1, 4096)
+        b.kadd(cur, v, float(w))
+    if ncopy is not None and ncopy >= n: b.kcopy("k", "k0")
     if rng.random() < 0.4: b.kreweight("k", rng.choice([Fraction(1, 4), Fraction(1, 1024), Fraction(3, 8), Fraction(2), Fraction(1, 64)]))
     if rng.random() < 0.2:
         b.kcopy("c", "k"); b.kmerge("k", "c")
